@@ -478,7 +478,7 @@ def rule_baselines(chk, cx):
 
 
 # ----------------------------------------------------------------------------
-def analyse(chk):
+def _analyse_own(chk):
     chk.rule("exp-deg", "length-scale exponents scale as lambda^2; derivative degrees 2-3, 2-8, 2-5")
     chk.rule("sl-deg", "regularised semilocal features and the rows of the semilocal plan have the declared powers")
     chk.rule("norm-usp", "FeatNormalizer.get_usp equals the degree of fill_fwd / get_ueg as a linear form")
@@ -511,6 +511,12 @@ def analyse(chk):
                         "numeric coefficients (a wrong constant factor has the right degree)",
                         "SPEC_USPS of l=1 specs (se_grad, se_rvec, grad_rho): their UEG value is 0 and the "
                         "integrals are in C"]
+
+
+def analyse(chk):
+    _analyse_own(chk)
+    chk.guard(lambda c_: core.include_findings(c_, 'C13', files=['ciderpress/dft/settings.py'], rules=['compose', 'emit-order'],
+                                               why='the recommended normaliser list must be ordered like the declared scaling powers for the normalised powers to vanish'))
 
 
 def mutants(tree):
